@@ -1,2 +1,4 @@
 import Glas.Props.C19
-#print axioms Glas.Props.C19.col_to_byte
+#print axioms Glas.Props.C19.decode_encode
+#print axioms Glas.Props.C19.strictly_increasing
+#print axioms Glas.Props.C19.inside_line
